@@ -4,6 +4,11 @@ from .. import ir
 
 
 class CJumpPass(InstructionPass):
+    def on_function(self, function):
+        super().on_function(function)
+        # Folding a branch can make its other target unreachable:
+        function.delete_unreachable()
+
     def on_instruction(self, instruction):
         if (
             isinstance(instruction, ir.CJump)
